@@ -6,6 +6,7 @@
 package main
 
 import (
+	"sync/atomic"
 	"bufio"
 	"bytes"
 	"crypto/sha256"
@@ -119,6 +120,12 @@ func main() {
 	for i, c := range cases {
 		impls[i] = runImpl(eng, c)
 		rep.Lines += len(c.Lines)
+		if atomic.LoadInt32(&hangs) >= 3 {
+			// every hang leaves a goroutine behind (possibly spinning): stop here, what was seen is judged
+			rep.Notes = append(rep.Notes, fmt.Sprintf("stopped after case %d of %d: three operations did not return", i+1, len(cases)))
+			cases, impls = cases[:i+1], impls[:i+1]
+			break
+		}
 	}
 	var models [][]string
 	if *driver != "" && eng.UsesModel() {
@@ -226,6 +233,7 @@ func runImpl(eng Engine, c Case) []string {
 	case out := <-done:
 		return out
 	case <-time.After(60 * time.Second):
+		atomic.AddInt32(&hangs, 1)
 		return []string{"hang"}
 	}
 }
@@ -246,6 +254,9 @@ func guard(f func() string) (out string) {
 }
 
 var lastPanic string
+
+// hangs counts operations that did not return within their watchdog's time.
+var hangs int32
 
 func runModel(driver string, cases []Case) ([][]string, error) {
 	var in bytes.Buffer
